@@ -88,6 +88,11 @@ Definition check_par (prop : Z) (inp impl : sx) : sx :=
           let m := server_params (mkQuery qp qt (match qpr with Some z => Some (d_proto z) | None => None end) (match qm with Some z => Some (d_method z) | None => None end)) in
           match rest with
           | [A ipr; A imin; A imax; A iport; A ime] =>
+              (* C19: a numeric query value is handed on exactly as given (the runner honours or rejects it), never replaced *)
+              if (prop =? 19) && (status =? 0)
+                 && (match qp with Some v => negb (iport =? v) | None => false end || match qt with Some v => negb (imax =? v) | None => false end)
+              then verdict V_SPECFAIL 2 [19; 9] (L [A iport; A imax])
+              else
               if (status =? 0) && (ipr =? e_proto (rp_proto m)) && (imin =? rp_min m) && (imax =? rp_max m) && (iport =? rp_port m)
                  && ((ime =? e_method (rp_method m)) || ((ime =? 5) && (match qm with Some 5 => true | _ => false end)))
               then verdict V_OK 2 [] (L []) else verdict V_DIVERGE 2 [] (L [A (rp_min m); A (rp_max m); A (rp_port m)])
